@@ -159,7 +159,7 @@ PLANS = {
     "C12": {
         "quick": [ex("rec", "rec", 1, 5, alphabet=["a", "b", "(", ")"]), rec("recR", "rec", 1500, 8, 10),
                   {"kind": "reccell", "name": "cells", "ops": 5, "handles": 4},
-                  deep("deep", ["paren", "parend", "mutual", "rightrec", "define2"], [3000, 100000])],
+                  deep("deep", ["paren", "parend", "mutual", "rightrec", "prefix", "infixr", "define2"], [3000, 100000])],
         "thorough": [ex("rec", "rec", 1, 6, alphabet=["a", "b", "(", ")"]), rec("recR", "rec", 30000, 10, 14),
                      {"kind": "reccell", "name": "cells", "ops": 6, "handles": 4, "timeout": 3000},
                      deep("deep", ["paren", "parend", "mutual", "rightrec", "prefix", "infixr", "define2"], [1000, 3000, 10000, 100000, 1000000])],
